@@ -38,6 +38,16 @@ class Exec {
   struct CallRec { int from; uint32_t serial; std::string dest; };
   std::vector<CallRec> all_calls;
   bool oom_retry_possible = false;
+  // ---- C14: one operation processed under an injected allocation failure
+  bool oom_armed = false;                 // between the oombus step and its resolution
+  bm::Model md_before;                    // model state before the operation
+  std::vector<size_t> cursor_before;      // per client: got_checked before the operation
+  std::vector<size_t> next_sent_before;
+  int oom_client = -1;                    // who issued the operation
+  core::Step oom_op;                      // the operation step (for the retry)
+  bool oom_op_valid = false;
+  std::string oom_outcome;                // "complete" | "nomemory"
+  void resolve_oom();
 
   int pick(int a) const;
   std::string resolve_name(const std::string &s);
@@ -62,7 +72,7 @@ class Exec {
   bool tainted = false;            // a listed finding made the model lose track: no further comparisons in this run
   bw::BusLimits lim_cfg;
   void sync_names();
-  std::set<std::string> ever_names;
+  std::map<std::string, int> ever_names;   // unique name -> connection it was first seen on
   std::vector<int> actual_queue(const std::string &name);
   void check_point(bool final);
   void compare_client(int ci);
